@@ -28,6 +28,9 @@ use caches::{AdaptiveCache, Cache, RawLRU, ResizableCache, SegmentedCache, TwoQu
 use std::cell::Cell;
 use std::marker::PhantomData;
 use std::rc::Rc;
+use std::sync::{Mutex, MutexGuard};
+/// a value that is Sync but not Send
+fn guard(n: u32) -> MutexGuard<'static, u32> { let m: &'static Mutex<u32> = Box::leak(Box::new(Mutex::new(n))); m.lock().unwrap() }
 fn touch<T: std::fmt::Debug>(t: T) { println!("{:?}", t); }
 fn s(x: &str) -> String { x.to_string() }
 /// a key that is Send but not Sync
@@ -105,8 +108,8 @@ def gen_probes():
     """returns list of dict(name, kind, ty, method, abuse: bool, src)"""
     out = []
 
-    def add(name, kind, ty, method, abuse, body):
-        out.append(dict(name=name, kind=kind, ty=ty, method=method, abuse=abuse, src=PRELUDE + "fn main() {\n" + body + "\n}\n"))
+    def add(name, kind, ty, method, abuse, body, expect=None):
+        out.append(dict(name=name, kind=kind, ty=ty, method=method, abuse=abuse, expect=expect, src=PRELUDE + "fn main() {\n" + body + "\n}\n"))
 
     for ty in TYPES:
         for (mn, expr, is_mut, is_it) in methods(ty):
@@ -134,7 +137,14 @@ def gen_probes():
                     "    %s\n    {\n    %s a = %s;\n    %s\n    }\n    {\n    %s b = %s;\n    %s\n    }" % (
                         setup(ty), lt, expr, "touch(a.next());" if is_it else "touch(&a);", lt, expr, "touch(b.next());" if is_it else "touch(&b);"))
 
+            # ---- a mutable iterator must not be cloneable (two live &mut to the same value)
+            if is_mut and is_it:
+                add("clonemut_%s_%s" % (ty, mn), "clone-mutable-iterator", ty, mn, True,
+                    "    %s\n    let mut a = %s;\n    let mut b = a.clone();\n    let x = a.next();\n    let y = b.next();\n    touch(&x); touch(&y);" % (setup(ty), expr),
+                    expect={"E0599", "E0277", "E0499"})
+
     # ---- Send / Sync
+    guardv = lambda i: "guard(%d)" % i
     rcv = lambda i: "Rc::new(%d)" % i
     cellv = lambda i: "Cell::new(%d)" % i
     u32k = lambda i: "%du32" % i
@@ -152,6 +162,10 @@ def gen_probes():
         add("sync_key_%s" % ty, "cross-thread", ty, "share-cache-nonsync-key", True,
             "    %s\n    let cr = &c;\n    std::thread::scope(|sc| {\n        sc.spawn(move || { touch(cr.contains(&nk(1))); });\n        touch(cr.contains(&nk(1)));\n    });"
             % setup(ty, "NK", "u32", lambda i: "nk(%d)" % i, u32v))
+        # cache with Sync-but-not-Send values moved to another thread
+        add("send_guard_%s" % ty, "cross-thread", ty, "move-cache-sync-not-send", True,
+            "    %s\n    let h = std::thread::spawn(move || { drop(c); });\n    h.join().unwrap();"
+            % setup(ty, "u32", "MutexGuard<'static, u32>", u32k, guardv))
         add("ctl_send_%s" % ty, "control", ty, "move-cache", False,
             "    %s\n    let h = std::thread::spawn(move || { touch(c.peek(&1)); drop(c); });\n    h.join().unwrap();" % setup(ty, "u32", "u32", u32k, u32v))
         add("ctl_sync_%s" % ty, "control", ty, "share-cache", False,
@@ -174,6 +188,10 @@ def gen_probes():
                 body = ("    %s\n    let it = %s;\n    let it2 = %s;\n    std::thread::scope(|sc| {\n        sc.spawn(move || { for x in it { %s v.set(v.get() + 1); } });\n"
                         "        for x in it2 { %s v.set(v.get() + 1); }\n    });")
                 add("itersend_cell_%s" % tag, "cross-thread", ty, prefix + f, True, body % (setup(ty, "u32", "Cell<u32>", u32k, cellv), it, it, unpack, unpack))
+            if has_v and is_mut:
+                # &mut V on another thread lets it move the value out: needs V: Send, Sync is not enough
+                body = "    %s\n    let mut it = %s;\n    std::thread::scope(|sc| {\n        sc.spawn(move || { for x in it { let y = format!(\"{:?}\", x); drop(y); } });\n    });"
+                add("itersend_guard_%s" % tag, "cross-thread", ty, prefix + f, True, body % (setup(ty, "u32", "MutexGuard<'static, u32>", u32k, guardv), it))
             if has_k:
                 # non-Sync keys handed out by reference on another thread
                 body = "    %s\n    let mut it = %s;\n    std::thread::scope(|sc| {\n        sc.spawn(move || { touch(it.next().is_some()); });\n    });"
@@ -299,8 +317,10 @@ def main(tier, seed):
     byname = {p["name"]: p for p in probes}
     abuse = [p for p in probes if p["abuse"]]
     controls = [p for p in probes if not p["abuse"]]
-    rejected_ok = [p for p in abuse if not p["compiled"] and set(p["codes"]) & EXPECTED]
-    rejected_odd = [p for p in abuse if not p["compiled"] and not (set(p["codes"]) & EXPECTED)]
+    def exp_ok(p):
+        return bool(set(p["codes"]) & (p.get("expect") or EXPECTED))
+    rejected_ok = [p for p in abuse if not p["compiled"] and exp_ok(p)]
+    rejected_odd = [p for p in abuse if not p["compiled"] and not exp_ok(p)]
     accepted = [p for p in abuse if p["compiled"]]
     ctl_broken = [p for p in controls if not p["compiled"]]
 
